@@ -633,12 +633,117 @@ def run(chk, tier, seed):
     chk.planned = 1 + len(fams) * (len(tasks_of(fams[0])) + 1)
     _determinism(chk, fams[0])
     evaluate(chk, fams)
+    extras(chk, tier, seed)
     chk.extra["families"] = len(fams)
     chk.extra["dt_family"] = list(DTS) + [DT_REF]
 
 
+# ----------------------------------------------------------------------------- extra single-run lattices
+
+
+def run_extra(item):
+    """(a) user-supplied velocities with net P and L + periodic COM removal: after the first removal the momenta that
+    the mode removes stay zero (conserved between removals) and every thermo row still belongs to its velocity row;
+    (b) molid subsets / permutations of a padded batch: the thermo rows written for molecule k are those of ITS
+    velocities and equal, bitwise, the rows of the same run written with molid = all."""
+    from seqm.MolecularDynamics import CONSTANTS as C
+
+    kind = item["kind"]
+    R = M.generic_rot(item["rot"])
+    prob = []
+    if kind == "com_user":
+        mols = [M.apply(M.get(n), R) for n in item["mol"].split("+")]
+        vel = user_field(mols)
+        n = 10
+        r = MD.run_md("bomd", mols, sp.make_params("AM1", eps=1e-11), n, dt=0.2, temp=300.0, seed=3, remove_com=tuple(item["com"]),
+                      out=dict(data=1, coordinates=1, velocities=1, forces=0), velocities=vel)  # fmt: skip
+        if r["error"]:
+            return {"error": r["error"]}
+        for k, m in enumerate(mols):
+            h = r[f"h5.{k}"]
+            mass = _mass_of(m["species"])
+            x, v = h["coordinates/values"], h["velocities/values"]
+            pscale = (mass[:, None] * np.abs(v[0])).sum()
+            lscale = (mass[:, None] * np.abs(np.cross(x[0] - x[0].mean(0), v[0]))).sum() + 1e-300
+            for i in range(1, x.shape[0]):
+                P, L = momenta(mass, x[i], v[i])
+                if np.abs(P).max() > 1e-10 * pscale:
+                    prob.append(("P_after_removal", k, float(np.abs(P).max() / pscale), f"row {i}: |P| = {np.abs(P).max():.3e} u A/fs after the centre-of-mass removal ({np.abs(P).max() / pscale:.2e} of sum m|v|)"))
+                    break
+                if item["com"][0] == "angular" and np.abs(L).max() > 1e-7 * lscale:
+                    prob.append(("L_after_removal", k, float(np.abs(L).max() / lscale), f"row {i}: |L| = {np.abs(L).max():.3e} after the angular removal ({np.abs(L).max() / lscale:.2e} of sum m|r x v|)"))
+                    break
+            ek = 0.5 * (mass[None, :, None] * v * v).sum((1, 2)) * C.KINETIC_ENERGY_SCALE
+            d = np.abs(h["data/thermo/Ek"] - ek).max() / max(np.abs(ek).max(), 1e-300)
+            if d > 1e-12:
+                prob.append(("Ek_row", k, float(d), f"/data/thermo/Ek differs from 1/2 sum m v^2 of the same /velocities rows by {d:.2e} relative"))
+        return {"error": None, "problems": prob}
+    if kind == "molid":
+        mols = [M.apply(M.get(n), R) for n in item["mol"].split("+")]
+        n = 5
+        common = dict(dt=0.4, temp=300.0, seed=5)
+        full = MD.run_md("bomd", mols, sp.make_params("AM1", eps=1e-10), n, out=dict(data=1, coordinates=1, velocities=1, forces=1), **common)
+        sub = MD.run_md("bomd", mols, sp.make_params("AM1", eps=1e-10), n, out=dict(data=1, coordinates=1, velocities=1, forces=1, molid=list(item["molid"])),
+                        nmol_out=range(len(mols)), **common)  # fmt: skip
+        if full["error"] or sub["error"]:
+            return {"error": full["error"] or sub["error"]}
+        for k, m in enumerate(mols):
+            h = sub[f"h5.{k}"]
+            if k not in item["molid"]:
+                if h is not None:
+                    prob.append(("molid_file", k, 0.0, f"molecule {k} is not in molid but has an output file"))
+                continue
+            if h is None:
+                prob.append(("molid_file", k, 0.0, f"molecule {k} is in molid but has no output file"))
+                continue
+            mass = _mass_of(m["species"])
+            v = h["velocities/values"]
+            ek = 0.5 * (mass[None, :, None] * v * v).sum((1, 2)) * C.KINETIC_ENERGY_SCALE
+            d = np.abs(h["data/thermo/Ek"] - ek).max() / max(np.abs(ek).max(), 1e-300)
+            if d > 1e-12:
+                prob.append(("Ek_row", k, float(d), f"molid={item['molid']}: /data/thermo/Ek of molecule {k} is not the kinetic energy of its own /velocities rows (rel {d:.2e})"))
+            for name, a in h.items():
+                b = full[f"h5.{k}"].get(name)
+                if b is None or a.shape != b.shape or not np.array_equal(a, b, equal_nan=True):
+                    prob.append(("molid_dataset", k, 0.0, f"molid={item['molid']}: dataset {name} of molecule {k} differs from the same run written with all molecules"))
+                    break
+        return {"error": None, "problems": prob}
+    raise ValueError(kind)
+
+
+def extras(chk, tier, seed):
+    items = []
+    for com in (["angular", 2], ["linear", 1], ["angular", 1]):
+        for mol in (("H2CO", "CH4+H2O") if tier == "quick" else ("H2CO", "H2O", "CH4+H2O", "NH3")):
+            items.append(dict(kind="com_user", mol=mol, com=com, rot=seed))
+    for molid in ([1], [1, 0], [0], [0, 1]):
+        items.append(dict(kind="molid", mol="CH4+H2O", molid=molid, rot=seed))
+    if tier != "quick":
+        for molid in ([2], [2, 0], [1, 2]):
+            items.append(dict(kind="molid", mol="CH4+H2O+HF", molid=molid, rot=seed))
+    res = pmap(run_extra, items, chunk=1, timeout=1800, progress="C08 extra single-run lattices")
+    for it, r in zip(items, res):
+        key = "extra|" + "|".join(f"{k}={v}" for k, v in it.items())
+        f = _fam(it["mol"], 1e-11, True, it.get("com"), "user" if it["kind"] == "com_user" else "mb", 0, 2.0, it["rot"])
+        if is_timeout(r) or is_error(r):
+            chk.harness_error(f"{key}: {str(r)[:300]}")
+            continue
+        if r["error"]:
+            chk.case(key, nontrivial=False, outcome="raised")
+            chk.violation(_desc(f, "run_raised", -1, 0.0, {"extra": it["kind"]}), f"{key}: the package raised on a valid run: {r['error']}", replay={"extra": it})
+            continue
+        chk.case(key, nontrivial=True, outcome=("ok" if not r["problems"] else r["problems"][0][0]))
+        for o, k, mag, msg in r["problems"]:
+            chk.violation(_desc(f, o, k, mag, {"extra": it["kind"], "molid": str(it.get("molid"))}), f"{key}: {msg}", replay={"extra": it})
+
+
 def replay(payload):
     from seqm.MolecularDynamics import CONSTANTS as C
+
+    if payload["replay"].get("extra"):
+        r = run_extra(payload["replay"]["extra"])
+        print(r)
+        return not r.get("error") and not r.get("problems")
 
     rp = payload["replay"]
     if rp.get("units"):
